@@ -312,6 +312,11 @@ func (w *lmWorker) explore(sk, uuid string, lab *lmm.Labels) {
 				continue
 			}
 		}
+		// quick tier: of the transitions out of depth-2 states (the third operation of a history) a seeded 40 % is
+		// replayed; everything shallower completely (the thorough tier and other seeds cover the rest)
+		if !w.c.thorough() && st.depth >= 2 && (uint64(ei)*2654435761+uint64(w.c.Seed)*40503)%10 >= 4 {
+			continue
+		}
 		child := w.branch(uuid)
 		cl := lab.Clone()
 		status, probs, err := w.in.Apply(child, e.L, cl)
@@ -653,7 +658,7 @@ func checkC08(c *Ctx) int {
 	// chains of operations inside one version on the variant instance (index cache on: a stale cached
 	// index only shows when two operations touch the same label at one version)
 	if only == "" || strings.Contains(","+only+",", ",sim2,") {
-		nb2, nsteps2 = lmSimulate(c, run, run12, big, bsv, c.pick(4, 30), c.pick(12, 25), &edges,
+		nb2, nsteps2 = lmSimulate(c, run, run12, big, bsv, c.pick(2, 30), c.pick(10, 25), &edges,
 			lmSimOpts{name: "/cache+split+multiblock+large", split: true, cache: 64, multi: true, labelBase: bigBase})
 	}
 	run.Set("simulated_behaviours", nb+nb2)
